@@ -26,6 +26,7 @@ RULE = ("cases = (class, n_pol, length in {1,2,3,4,5,7,8,9,16,31,32,64,...}, dty
         "non-trivial = length>=2; distinct by (class,n_pol,len,noise,domain,shift,dtype,gv)")
 PARTIAL = ["numpy's FFT is trusted to compute the DFT (model = definition); rounding error is not covered by the theorems"]
 ASSUMPTIONS = ["numpy.fft.fft/ifft compute the DFT/inverse DFT of the last axis", "IEEE double arithmetic on both sides; libm sin/cos within 1 ulp"]
+THOROUGH_ROUNDS = 6      # the thorough tier draws the whole generator this many times
 BUDGET = {"quick": 120, "thorough": 600}
 
 LENS_Q = [1, 2, 3, 4, 5, 7, 8, 9, 16, 31, 64]
